@@ -240,6 +240,86 @@ TrueDistNum(T, n, k) ==
 
 DistortionExactOK(T, n, k, cdAll, num, den) == num * cdAll * cdAll = den * TrueDistNum(T, n, k)
 
+(***************************************************************************)
+(* Geometric coordinates ("deep tree" families).  Column 1 of a row holds   *)
+(* an EXPONENT e: the real coordinate is 2^e, with pairwise distinct        *)
+(* exponents spanning far more than 64 binary orders of magnitude; the      *)
+(* other columns are small lattice integers and are judged as usual         *)
+(* (MeansFxFrom / SumsFromOK below, columns 2..d).  Values of the geometric *)
+(* column (a centroid coordinate, a cluster sum) are recorded as            *)
+(* (man, ex) with value ~ man * 2^(ex - GS), 2^(GS-1) <= man <= 2^GS, and   *)
+(* are compared with the exact sum of the members' powers of two relative   *)
+(* to the LARGEST member: T = SUM 2^(e_i - emax + GS) over the members with *)
+(* e_i >= emax - GS; the members dropped contribute less than one unit in   *)
+(* total (distinct exponents), the mantissa rounding half a unit.           *)
+(***************************************************************************)
+GS == 20
+
+MaxOf(S) == CHOOSE a \in S : \A b \in S : a >= b
+
+GeoMembers(y, c) == { i \in 1..Len(y) : y[i] = c - 1 }        \* c = 1-based position
+
+GeoT(X, M, emax) ==
+    SumTo([i \in 1..Len(X) |-> IF i \in M /\ X[i][1] >= emax - GS THEN Pow2(X[i][1] - emax + GS) ELSE 0], Len(X))
+GeoDropped(X, M, emax) == Cardinality({ i \in M : X[i][1] < emax - GS })
+
+ShiftBy(v, sh) == IF sh >= 0 THEN v * Pow2(sh) ELSE v \div Pow2(0 - sh)
+
+(* size * centroid = sum of the members, in units of 2^(emax - GS) *)
+GeoMeanAt(X, M, emax, m, man, ex) ==
+    /\ ex - emax \in (0 - 9)..1
+    /\ Abs(ShiftBy(m * man, ex - emax) - GeoT(X, M, emax)) <= m + GeoDropped(X, M, emax) + 2
+
+GeoMeansOK(X, y, size, man, ex, k) ==
+    \A c \in 1..k : size[c] > 0 =>
+        GeoMeanAt(X, GeoMembers(y, c), MaxOf({ X[i][1] : i \in GeoMembers(y, c) }), size[c], man[c], ex[c])
+
+(* the recorded cluster sum itself *)
+GeoSumAt(X, M, emax, man, ex) ==
+    /\ ex - emax \in 1..2
+    /\ Abs(man * Pow2(ex - emax) - GeoT(X, M, emax)) <= GeoDropped(X, M, emax) + 3
+
+GeoSumsOK(X, member, counts, man, ex, k) ==
+    \A c \in 1..k : counts[c] > 0 =>
+        GeoSumAt(X, GeoMembers(member, c), MaxOf({ X[i][1] : i \in GeoMembers(member, c) }), man[c], ex[c])
+
+(* the lattice columns 2..d *)
+MeansFxFrom(sums, size, cfx, xs, k, d) ==
+    \A c \in 1..k : size[c] > 0 =>
+        \A j \in 2..d : Abs(size[c] * cfx[c][j] - xs * sums[c][j]) <= size[c]
+
+SumsFromOK(cs, sums, k, d) ==
+    /\ ShapeOK(sums, k, d)
+    /\ \A c \in 1..k : \A j \in 2..d : sums[c][j] = cs[c][j]
+
+(***************************************************************************)
+(* Nearest centroid on geometric data, decided only where floating point    *)
+(* can decide it: with D0 = |2^e - 2^g| in [2^(a-1), 2^a), a = max(e, g)    *)
+(* (D0 = 0 when e = g) and s the squared distance in the lattice columns    *)
+(* (s < 2^13 for the admitted inputs), centroid c is CLEARLY nearer than    *)
+(* the reported one m when                                                 *)
+(*   - c matches the exponent and m is at least 2^7 away in column 1, or    *)
+(*   - both differ and D0(m) >= 2 * D0(c) with D0(m) >= 2^7, or             *)
+(*   - both match the exponent and s(c) < s(m) (exact small integers).      *)
+(* Anything closer than that is accepted: the 53-bit squared distance may   *)
+(* not resolve it.                                                          *)
+(***************************************************************************)
+GeoA(e, g) == IF e = g THEN 0 - 1 ELSE IF e > g THEN e ELSE g
+GeoS(x, c, d) == SumTo([j \in 1..d |-> IF j = 1 THEN 0 ELSE (x[j] - c[j]) * (x[j] - c[j])], d)
+
+ClearlyNearer(ac, sc, am, sm) ==
+    \/ ac = 0 - 1 /\ am >= 8
+    \/ ac >= 0 /\ am >= 8 /\ ac < am - 1
+    \/ ac = 0 - 1 /\ am = 0 - 1 /\ sc < sm
+
+GeoRowOK(x, cg, m, d) ==
+    \A c \in 1..Len(cg) :
+        ~ClearlyNearer(GeoA(x[1], cg[c][1]), GeoS(x, cg[c], d), GeoA(x[1], cg[m][1]), GeoS(x, cg[m], d))
+
+GeoNearestOK(X, cg, member, n, k, d) ==
+    /\ LabelsOK(member, n, k)
+    /\ \A i \in 1..n : GeoRowOK(X[i], cg, member[i] + 1, d)
+
 (* the recorded form of the whole clause; which sub-clause fails is reported
    by the trace spec, in this order *)
 FilterClauses == <<"Nearest", "Counts", "Sums", "Distortion">>
